@@ -89,6 +89,10 @@ def class_row(name, cls, stats):
         stats["classes_without_structure_fn"] = stats.get("classes_without_structure_fn", 0) + 1
     if so is None or uo is None:
         raise Reject("class %s is not (un)structured by a cattrs-generated dict function" % name)
+    import linecache
+    usrc = linecache.getlines(getattr(getattr(ufn, "__code__", None), "co_filename", "")) or None
+    if usrc is not None and not (usrc[0].startswith("def unstructure_") and any(ln.strip() == "return res" for ln in usrc)):
+        raise Reject("generated unstructure function of %s has an unexpected shape" % name)
     fs = []
     for a in attrs.fields(cls):
         if not a.init or a.kw_only is None:
@@ -109,7 +113,24 @@ def class_row(name, cls, stats):
         wout = u_ov.rename if u_ov is not None and u_ov.rename is not None else a.name
         if (s_ov is not None and (s_ov.omit or s_ov.struct_hook)) or (u_ov is not None and (u_ov.omit or u_ov.unstruct_hook)):
             raise Reject("override outside grammar on %s.%s" % (name, a.name))
-        omit = bool(u_ov.omit_if_default) if u_ov is not None and u_ov.omit_if_default is not None else bool(getattr(conv, "omit_if_default", False))
+        # omit-if-default as the GENERATED unstructure function does it (cattrs keeps the source of what it generated): the attribute is
+        # written under `if instance.<attr> != __c_def_<attr>:` iff it is omitted when it equals its default — whatever mixture of
+        # per-attribute overrides, function-level `_cattrs_omit_if_default` and converter option produced that
+        guard = "if instance.%s != __c_def_%s:" % (a.name, a.name)
+        if a.default is attrs.NOTHING:
+            # no default: the flag never matters (nothing to compare with); the declared override is kept so that the image check still
+            # sees what the package declares
+            omit = bool(u_ov.omit_if_default) if u_ov is not None and u_ov.omit_if_default is not None else False
+        elif usrc is not None:
+            omit = any(ln.strip() == guard for ln in usrc)
+            if not any(("res['%s']" % wout) in ln or ("'%s':" % wout) in ln for ln in usrc):
+                raise Reject("generated unstructure function of %s does not write %r" % (name, wout))
+            if u_ov is not None and u_ov.omit_if_default is not None and bool(u_ov.omit_if_default) != omit and a.default is not attrs.NOTHING:
+                raise Reject("override and generated code disagree on omit_if_default of %s.%s" % (name, a.name))
+        elif u_ov is not None and u_ov.omit_if_default is not None:
+            omit = bool(u_ov.omit_if_default)
+        else:
+            raise Reject("cannot tell whether %s.%s is omitted when default (no generated source, no explicit override)" % (name, a.name))
         fs.append("{| fname := %s; fwire := %s; fwireo := %s; ftype := %s; fdefault := %s; fval := %s; fvalopt := %s; fomit := %s |}"
                   % (q(a.name), q(win), q(wout), ty(a.type), d, vk, b(opt), b(omit)))
         stats["fields"] += 1
@@ -388,6 +409,25 @@ def used_on_every_returning_path(stmts, name):
     return False          # falls off the end: returns None without touching the name
 
 
+def table_of(e):
+    """[(key string, value AST)] of a constant {str: ...} table: a module-level table name of _hooks.py or a dict literal"""
+    if isinstance(e, ast.Name) and e.id in tables:
+        return tables[e.id]
+    if isinstance(e, ast.Dict) and e.keys and all(isinstance(k_, ast.Constant) and isinstance(k_.value, str) for k_ in e.keys) and all(is_literal(v_) for v_ in e.values):
+        return [(k_.value, v_) for k_, v_ in zip(e.keys, e.values)]
+    return None
+
+
+def assigns_in(stmts):
+    """does this statement list bind a local (on a path that can fall through to what follows)?"""
+    for st in stmts:
+        if isinstance(st, (ast.Assign, ast.AnnAssign)):
+            return True
+        if isinstance(st, ast.If) and (assigns_in(st.body) or assigns_in(st.orelse)):
+            return True
+    return False
+
+
 def block(stmts, var, k, env=None):
     env = env or {}
     if not stmts:
@@ -395,6 +435,16 @@ def block(stmts, var, k, env=None):
     s, rest = stmts[0], stmts[1:]
     if isinstance(s, ast.Expr) and isinstance(s.value, ast.Constant):
         return block(rest, var, k, env)
+    if isinstance(s, ast.AnnAssign) and s.value is not None and isinstance(s.target, ast.Name) and s.simple:
+        s = ast.Assign(targets=[s.target], value=s.value)        # `x: T = v` binds like `x = v` (the annotation of a local is not evaluated)
+    if (isinstance(s, ast.Assign) and len(s.targets) == 1 and isinstance(s.targets[0], ast.Name) and s.targets[0].id not in (var, "converter", "item", "lsp_types")
+            and isinstance(subst(s.value, env), ast.IfExp)):
+        # name = A if c else B (A, B not necessarily pure: a table look-up): c is evaluated once, here; each continuation binds the branch it selected
+        val = subst(s.value, env)
+        name = s.targets[0].id
+        kt = block([ast.Assign(targets=[ast.Name(id=name, ctx=ast.Store())], value=val.body)] + list(rest), var, k, env)
+        kf = block([ast.Assign(targets=[ast.Name(id=name, ctx=ast.Store())], value=val.orelse)] + list(rest), var, k, env)
+        return "(TIf %s %s %s)" % (cond(fold(val.test), var), kt, kf)
     if (isinstance(s, ast.Assign) and len(s.targets) == 1 and isinstance(s.targets[0], ast.Name) and s.targets[0].id not in (var, "converter", "item", "lsp_types")
             and pure(s.value)):
         # a local bound once to a pure expression: substitute it.  The binding is evaluated exactly once, BEFORE what follows, and may
@@ -457,15 +507,18 @@ def block(stmts, var, k, env=None):
             unrolled += [_Subst(b).visit(copy.deepcopy(st)) for st in s.body]
         return block(unrolled + list(rest), var, k, env)
     if (isinstance(s, ast.Assign) and len(s.targets) == 1 and isinstance(s.targets[0], ast.Name) and isinstance(s.value, ast.Call)
-            and isinstance(s.value.func, ast.Attribute) and s.value.func.attr == "get" and isinstance(s.value.func.value, ast.Name)
-            and len(s.value.args) == 1 and not s.value.keywords and s.value.func.value.id in tables):
-        # t = TABLE.get(<expr>) for a constant {str: lsp type} table of _hooks.py: a chain of string comparisons in table order,
-        # t bound to the type on a hit and to None otherwise (a non-string key makes every comparison false, like dict.get)
+            and isinstance(s.value.func, ast.Attribute) and s.value.func.attr == "get"
+            and len(s.value.args) == 1 and not s.value.keywords and table_of(subst(s.value.func.value, env)) is not None):
+        # t = TABLE.get(<expr>) for a constant {str: lsp type} table (a module-level name of _hooks.py, or a dict literal / a dict the hook
+        # closes over): a chain of string comparisons in table order, t bound to the type on a hit and to None otherwise (a non-string
+        # key makes every comparison false, like dict.get; dict.get hashes its argument first: the keys compared here are what
+        # object_[...] yields — JSON values — of which only lists and dicts are unhashable, and for those the real code raises TypeError
+        # while the chain answers None: the forms admitted below evaluate the key under an isinstance(key, str) test or compare it)
         name, key = s.targets[0].id, subst(s.value.args[0], env)
         if any(isinstance(n, ast.Name) and n.id == name and isinstance(n.ctx, ast.Store) for st in rest for n in ast.walk(st)):
             raise Reject("local %s assigned more than once" % name)
         r = block(rest, var, k, dict(env, **{name: ast.Constant(value=None)}))
-        for kstr, vexpr in reversed(tables[s.value.func.value.id]):
+        for kstr, vexpr in reversed(table_of(subst(s.value.func.value, env))):
             r = "(TIf (CEqStr %s %s) %s %s)" % (hexpr(key, var), q(kstr), block(rest, var, k, dict(env, **{name: vexpr})), r)
         return r
     if env:
@@ -483,6 +536,10 @@ def block(stmts, var, k, env=None):
             if terminal(chosen):
                 return block(chosen, var, k, env)           # what follows the if is unreachable on this path
             return block(chosen, var, block(rest, var, k, env), env)
+        if assigns_in(s.body) or assigns_in(s.orelse):
+            # a branch binds a local that the statements after the if may use: `if c: A else: B; R` is `if c: A; R else: B; R`
+            # (c is evaluated once; each copy of R sees the bindings of the branch taken)
+            return "(TIf %s %s %s)" % (cond(s.test, var), block(list(s.body) + list(rest), var, k, env), block(list(s.orelse) + list(rest), var, k, env))
         kk = block(rest, var, k, env)
         return "(TIf %s %s %s)" % (cond(s.test, var), block(s.body, var, kk, env), block(s.orelse, var, kk, env))
     raise Reject("hook statement outside grammar: " + ast.unparse(s))
